@@ -6,8 +6,10 @@ import (
 	"os"
 	"path/filepath"
 	"sort"
+	"strconv"
 	"strings"
 	"sync/atomic"
+	"syscall"
 	"time"
 
 	"github.com/nats-io/nats.go"
@@ -37,6 +39,24 @@ func storeDir() string {
 		}
 	}
 	return "."
+}
+
+// cleanStoreDirs removes the store directories that earlier harness processes left behind (a process that was killed, or
+// ended through os.Exit, cannot remove its own): every directory siot-verif-<pid> whose process no longer exists. The store
+// files live in /dev/shm, i.e. in memory, so leftovers of many runs add up.
+func cleanStoreDirs() {
+	for _, d := range []string{"/dev/shm", os.TempDir()} {
+		ms, _ := filepath.Glob(filepath.Join(d, "siot-verif-[0-9]*"))
+		for _, m := range ms {
+			pid, err := strconv.Atoi(strings.TrimPrefix(filepath.Base(m), "siot-verif-"))
+			if err != nil || pid == os.Getpid() {
+				continue
+			}
+			if syscall.Kill(pid, 0) == syscall.ESRCH {
+				os.RemoveAll(m)
+			}
+		}
+	}
 }
 
 func newStore() (*store.DbSqlite, string) {
